@@ -102,9 +102,10 @@ class Spec(object):
             for c in calls:
                 if c[0] == 'P':
                     # benign = no "#." sequence; a '#' elsewhere (also at the start of a line) is fine
-                    t = c[1].replace('#.', '#~')
+                    t = c[1]
                     if rng.random() < 0.4:
                         t = rng.choice(['# Heading\n', '#', 'a\n#include <x>\n', '## sub\n\n']) + t
+                    t = t.replace('#.', '#~')      # after prefixing: '#' + '.a' must not slip through
                     if not t.strip('\r\n'):
                         t = 'x' + t
                     clean.append(('P', t, None) + c[3:])
